@@ -117,9 +117,12 @@ pub(crate) fn scan_and_apply_units<S: TexlangState>(
                 }
             }
             super::OptionalSpace::parse(input)?;
+            // the fraction can round up to 1.0, so the sum is range checked too (TeX.2021.448)
             return match Scaled::from_integer(integer_part) {
-                Ok(integer_part) => Ok(integer_part + fractional_part),
-                Err(_) => handle_overflow(input, first_token, false),
+                Ok(integer_part) if integer_part + fractional_part <= Scaled::MAX_DIMEN => {
+                    Ok(integer_part + fractional_part)
+                }
+                _ => handle_overflow(input, first_token, false),
             };
         }
     }
